@@ -5,6 +5,8 @@ package cache
 import (
 	"net/http"
 	"regexp"
+
+	"github.com/vicanso/pike/compress"
 )
 
 // C09 — persistence format: round trip, garbage, truncation.
@@ -63,6 +65,7 @@ func c09Entry(maxBody int) *httpCache {
 }
 
 func Harness_C09_roundtrip() {
+	compress.VerifCodecStubs = true // (the bodies here are arbitrary bytes: decoding them fails, before and after the round trip alike)
 	maxBody := 2
 	if verifTier() > 0 {
 		maxBody = 4
@@ -103,6 +106,11 @@ func Harness_C09_roundtrip() {
 		} else {
 			verifAssert("C09.rt.no-filter", r2.CompressContentTypeFilter == nil)
 		}
+		// ... and behaves identically for a client that takes the identity body (decoded from the
+		// stored variant when there is no raw body: a restored empty raw body must not shadow it)
+		b1, e1 := r.GetRawBody()
+		b2, e2 := r2.GetRawBody()
+		verifAssert("C09.rt.identity-body-behaves-the-same", (e1 == nil) == (e2 == nil) && (e1 != nil || c09BytesEq(b1, b2)))
 		verifAssert("C09.rt.header-count", len(r2.Header) == len(r.Header))
 		if r.Header != nil && len(r.Header) > 0 {
 			verifAssert("C09.rt.header-values", len(r2.Header["X-Multi"]) == 2 && r2.Header["X-Multi"][1] == "b" && r2.Header.Get("Content-Type") == "text/html" && r2.Header.Get("X-Utf8") == "é")
